@@ -458,6 +458,21 @@ func init() {
 			})
 		}
 	}
+	// randomness is environment: arbitrary values
+	reg("github.com/pion/webrtc/v4/internal/util.RandUint32", func(in *Interp, _ *Frame, _ *ssa.Function, a []Value) (Value, bool) {
+		return in.nondet("env_rand32", BV(32)), true
+	})
+	reg("github.com/pion/webrtc/v4/internal/util.MathRandAlpha", func(in *Interp, _ *Frame, _ *ssa.Function, a []Value) (Value, bool) {
+		n := int(in.concreteInt(a[0].(*Term), "MathRandAlpha"))
+		bs := make([]*Term, n)
+		for i := range bs {
+			b := in.nondet("env_alpha", BV(8))
+			lower := in.F.BOr(b, in.F.Const(8, 0x20)) // letters of either case
+			in.assertPC(in.F.And(in.F.ULe(in.F.Const(8, 'a'), lower), in.F.ULe(lower, in.F.Const(8, 'z'))))
+			bs[i] = b
+		}
+		return in.strFromBytes(bs), true
+	})
 	// time.Now: an arbitrary instant (environment); no monotonic reading.
 	reg("time.Now", func(in *Interp, _ *Frame, fn *ssa.Function, a []Value) (Value, bool) {
 		st := in.zero(fn.Signature.Results().At(0).Type()).(*StructV)
